@@ -137,8 +137,12 @@ class ERIIllConditioned:
     LIST = [(t, l, e) for t in (1e5, 1e4, 1e3, 1e2) for (l, e) in ((3, 0.2), (3, 0.5), (2, 0.1), (2, 0.3))]
 
     def fp_shapes(self, tier):
-        sel = self.LIST if tier == "thorough" else [q for q in self.LIST if q[0] in (1e5, 1e3)]
-        return [dict(tight=t, lket=l, eket=e, order=o) for t, l, e in sel for o in ("ss|XX", "XX|ss")]
+        sel = self.LIST if tier == "thorough" else [q for q in self.LIST if q in ((1e5, 3, 0.2), (1e3, 3, 0.2), (1e5, 2, 0.1))]
+        out = [dict(tight=t, lket=l, eket=e, order=o) for t, l, e in sel for o in ("ss|XX", "XX|ss")]
+        # the core s function paired with a diffuse function of the other shell type: (s X | X X)
+        mixed = [(1e5, 2, 0.2)] if tier == "quick" else [(t, l, e) for t in (1e5, 1e4, 1e3) for (l, e) in ((2, 0.2), (3, 0.3))]
+        out += [dict(tight=t, lket=l, eket=e, order=o) for t, l, e in mixed for o in ("sX|XX", "XX|sX")]
+        return out
 
     shapes = fp_shapes
 
@@ -160,7 +164,9 @@ class ERIIllConditioned:
         A, B = [0.0, 0.0, 0.0], [0.3, -0.2, 0.5]
         t, l, e = shape["tight"], shape["lket"], shape["eket"]
         quad = [(0, t, A), (0, t * 0.3, A), (l, e, B), (l, e * 1.7, B)]
-        if shape["order"] == "XX|ss":
+        if shape["order"] in ("sX|XX", "XX|sX"):
+            quad[1] = (l, e * 1.3, [0.1, 0.2, -0.1])
+        if shape["order"] in ("XX|ss", "XX|sX"):
             quad = quad[2:] + quad[:2]
         shells = [sh(*q) for q in quad]
         x = E.construct_array_contraction(*shells)
@@ -188,6 +194,8 @@ class ERIIllConditioned:
             rel = abs(got - ref) / (sw + mp.mpf("1e-280"))
             if rel > worst[0] or got != got:
                 worst = (rel if got == got else mp.mpf("inf"), idx)
-        lab = "s(%.0e)s" % t, "%s(%.1f)%s" % ("spdf"[l], e, "spdf"[l])
-        name = "eri_illcond/%s/within-1e-6-of-Schwarz" % ("%s|%s" % lab if shape["order"] == "ss|XX" else "%s|%s" % lab[::-1])
+        X = "spdf"[l]
+        first = ("s(%.0e)s" % t) if "ss" in shape["order"] else ("s(%.0e)%s" % (t, X))
+        lab = first, "%s(%.1f)%s" % (X, e, X)
+        name = "eri_illcond/%s/within-1e-6-of-Schwarz" % ("%s|%s" % lab if shape["order"].startswith("s") else "%s|%s" % lab[::-1])
         M.true(name, worst[0] <= mp.mpf("1e-6"), "worst |block - exact| / Schwarz = %s at component index %s" % (mp.nstr(worst[0], 4), worst[1]))
